@@ -181,6 +181,9 @@ pub mod std {
         pub fn rename<P: AsRef<Path>, Q: AsRef<Path>>(a: P, b: Q) -> ::std::io::Result<()> {
             let (na, nb) = (crate::rt::norm_path(a.as_ref()), crate::rt::norm_path(b.as_ref()));
             crate::point(&nb, &format!("fs.rename {na} {nb}"));
+            if let Some((kind, _)) = crate::fault("fs.rename", &nb) {
+                return Err(crate::io_err(&kind));
+            }
             ::std::fs::rename(a, b)
         }
         pub fn copy<P: AsRef<Path>, Q: AsRef<Path>>(a: P, b: Q) -> ::std::io::Result<u64> {
